@@ -216,3 +216,25 @@ MUTATIONS = [
     {"id": "m16d", "prop": "C08", "expect": r"flow:merged:group-key",
      "edits": [(R + "cob/patch.rs", "*acc.entry((merge.revision, merge.commit)).or_default() += 1;", "*acc.entry((merge.revision, commit)).or_default() += 1;")]},
 ]
+
+
+# ---- independent seeded changes kept under /verif/seeded/<id>/ are replayed like canned mutations
+def _seeded():
+    import glob
+    import json
+    import os
+    base = os.path.join(os.path.dirname(os.path.dirname(os.path.abspath(__file__))), "seeded")
+    out = []
+    for mf in sorted(glob.glob(os.path.join(base, "*", "meta.json"))):
+        try:
+            meta = json.load(open(mf))
+        except ValueError:
+            continue
+        d = os.path.dirname(mf)
+        pf = os.path.join(d, "patch.diff")
+        if os.path.exists(pf):
+            out.append({"id": "seed-" + meta["id"], "prop": meta["property"], "expect": meta.get("expect", "."), "patch": pf})
+    return out
+
+
+MUTATIONS += _seeded()
